@@ -9,8 +9,6 @@ RULE = ("op sequences over a 20-op alphabet (add option / command option with al
         "(thorough), seeded random to length 7; after every op the exception class and the full query vector of the builder and of "
         "builder.format are compared, plus ArgsFormat(elements, base) for add-only sequences; non-trivial = >= 1 rejection or >= 2 "
         "accepted elements; distinct by (bases, ops)")
-THEOREMS = ["add_option_rejects_or_keeps", "add_command_option_rejects_or_keeps", "add_argument_rejects_or_keeps", "reachable_wf",
-            "format_agrees_with_builder"]
 TRUSTED = []
 ASSUMPTIONS = ["elements are valid Option/CommandOption/Argument/CommandName objects (their construction is C07)"]
 
